@@ -136,6 +136,17 @@ PROPS = {
           'knows its shard) is invoked for a shard iff that shard is not served from cache (Cache: iff not all files present); ReadCache yields the '
           'cached relation. Non-trivial: a file was written or read / the fault fired.',
           nbatch=(16, 16), must_observe=['cache_files_inspected', 'file_faults_fired', 'cached_shards_skipped', 'uncached_shards_recomputed', 'readcache_runs']),
+ 'C19': P('exploration',
+          'cases = (executor, base program with shard-aware sources, 2..6 generated programs consuming the base Result as both arguments, 0..2 '
+          'concurrent scanners, discard of the shared result before and/or during the concurrent phase, user-function delay in {0,50,300,2000} us, '
+          'seed-chosen delays before/after Worker.Run/Compile/Read/Stat RPCs, repetition index). All runs and scans of a scenario start together; '
+          'each scenario is repeated 5 (quick) / 40 (thorough) times; GOMAXPROCS is 1,2,4,16 by child batch. Built with the race detector in both '
+          'tiers: every report with a bigslice frame is a violation (third-party-only reports are counted and ignored). Oracle: every concurrent run '
+          'succeeds with its solo reference rows; scans yield reference rows (or an error once the result was discarded); executions of the same '
+          'shared task (a source shard of the base program) never overlap in time; every operation returns (stall rule, else inconclusive). '
+          'Non-trivial: >=2 runs were started together over a shared result; distinct by scenario x repetition.',
+          variants={'quick': ['race'], 'thorough': ['race']}, nbatch=(16, 16), timeout=(1200, 3400), vary_gomaxprocs=True,
+          must_observe=['concurrent_runs_ok', 'scenarios_with_all_runs_overlapping', 'shared_source_attempts']),
 }
 
 META = {
@@ -218,4 +229,10 @@ META = {
     note='Shard files are judged by decoding them as the cache reader does (zstd + row codec); temp files that were never committed are not '
          'cache files. The fault-free trace defines the ordinal space; runs with a fault that never fired are counted, not judged.',
     technique='fault injection at the file layer with complete-or-absent and per-shard recomputation oracles'),
+ 'C19': dict(
+    text='Exploration under the race detector: sets of programs sharing a Result are started together with scans and discards alongside, under '
+         'perturbed schedules; results are compared with solo reference rows and shared-task executions are checked for overlap.',
+    note='Schedule perturbation is placed in user functions and at RPC boundaries (never inside library locks). Race reports wholly inside '
+         'bigmachine/base are not counted. murmur3 is exempt from checkptr (forms a one-past-the-end pointer).',
+    technique='Go race detector + differential result check + overlap monitor on shared task executions'),
 }
